@@ -74,6 +74,8 @@ pub struct Profile {
     pub huge: u64,
     /// certificates / proposals decoded from another producer's encoding, and the same certificate handed over twice
     pub alt_values: u64,
+    /// the final build goes through `build_tx_unsafe` (only the checks that can judge such a transaction enable it)
+    pub unsafe_builds: u64,
 }
 
 impl Profile {
@@ -123,6 +125,7 @@ impl Profile {
             many: 60,
             huge: 0,
             alt_values: 150,
+            unsafe_builds: 0,
         }
     }
 }
@@ -1308,6 +1311,9 @@ pub fn generate(seed: u64, tier: Tier, p: &Profile) -> Scenario {
     if plan.uses_plutus || g.r.chance(1, 20) {
         let langs = if g.r.chance(1, 8) { 7 } else { plan.langs | if g.r.chance(1, 4) { 1 << g.r.below(3) } else { 0 } };
         ops.push(Op::ScriptDataHash(langs));
+    }
+    if pm(&mut g.r, p.unsafe_builds) {
+        ops.push(Op::BuildTxUnsafe);
     }
     ops.push(if g.r.chance(1, 10) { Op::Build } else { Op::BuildTx });
     if pm(&mut g.r, p.repeat_build) {
